@@ -127,7 +127,8 @@ Proof. exact answer_positional. Qed.
 Print Assumptions C03_answer_positional.
 
 (** pending_stable (repaired code) — from the moment a result for a root is persisted (that is: from the first draw on,
-    before anything was requested), at every later point of every history a result is persisted for it; pending only
+    before anything was requested), at every later point of every history (failed loads and failed stores of the datastore
+    included) a result is persisted for it; pending only
     shrinks, sampled only grows, both inside the original set; and as long as the getter keeps its contract
     available ∪ remaining is the same set. *)
 Theorem C03_pending_stable : forall wf hf cf count es1 es2 r res0,
